@@ -619,6 +619,13 @@ def rule_bookkeeping_names(ctx):
         for p, h in zip(explore(prog, fac, run, max_paths=16), hooks):
             if p.outcome != "return":
                 continue
+            written = {w for sqlv, _, _ in h.calls for w in ("_fs_tables_ext", "_fs_columns_ext") if w in text_of(sqlv)}
+            okb = written == {"_fs_tables_ext", "_fs_columns_ext"}
+            ctx.ob("C09.i", f"{label} CREATE TABLE with a comment and a sized VARCHAR records both", okb, "fakesnow/cursor.py", str(sorted(written)))
+            if not okb:
+                ctx.violation("C09.i", "cursor", "FakeSnowflakeCursor._execute", f"{label}: only {sorted(written)} recorded", "fakesnow/cursor.py",
+                              f"a CREATE TABLE that declares a comment and a VARCHAR(10) column writes only {sorted(written) or 'nothing'} of the two side "
+                              f"tables: the other piece of metadata (length / comment) is lost for this table")
             for sqlv, _, site in h.calls:
                 txt = text_of(sqlv)
                 if "_fs_tables_ext" not in txt and "_fs_columns_ext" not in txt:
